@@ -4,6 +4,7 @@
   (Byte-level robustness of the decoder — no panic site, terminal errors — is Props/C03.)
 -/
 import GV.Proofs.EngineState
+import GV.Proofs.EngineNoPanic
 namespace GV.Props.C11
 open GV
 
@@ -152,5 +153,27 @@ theorem halted_run_silent (evs : List Event) : ∀ (e : Engine), e.state = .halt
     have hs := halted_step_silent e ev h (hall ev (List.mem_cons_self ..))
     simp only [List.foldl, hs.2.1, hs.2.2, List.append_nil]
     exact ih (step e ev).1 hs.1 (fun x hx => hall x (List.mem_cons_of_mem _ hx))
+
+/-! ### every history -/
+
+/-- **The engine never panics.**  After any sequence of events whatsoever from a fresh engine - user submissions, opened /
+    closed notifications, any inbound bytes, write completions, service calls with any clock and buffer, time queries,
+    resets, in any order, legal for a driver or not, under any configuration - the next event, whatever it is, is answered
+    with success or with an error value: none of the engine's `unwrap()`, `assert!` or `panic!` sites (every one of them is
+    an explicit `Res.panic` outcome of the model: missing operation, missing negotiated settings, missing CONNACK timeout,
+    slow-start underflow, the five assertions of `apply_session_present_to_connection`, a completion without result, a
+    pending publish that is no publish) is reachable.  The one demand on the driver: a service call offers room for a
+    fixed header (capacity ≥ 4, `Event.capOk`) - below that the encoder itself refuses (`encode_target_buffer_too_small`),
+    and both drivers use 4 KiB and more. -/
+theorem engine_never_panics (cfg : Config) (evs : List Event) (ev : Event) (hcap : ev.capOk) (site : String) :
+    (step (runEvents (Engine.new cfg) evs).1 ev).2.result ≠ .panic site :=
+  step_np _ ev (inv2_after cfg evs) hcap site
+
+/-- the capacity demand is needed: with room for less than a fixed header the encoder's own check fires -/
+example : (step (step (Engine.new {}) (.opened 0 100)).1 (.service 0 3 0)).2.result = .panic "encode_target_buffer_too_small" := by
+  decide
+
+/-- non-vacuity: the same history with a 64-byte buffer writes the CONNECT -/
+example : (step (step (Engine.new {}) (.opened 0 100)).1 (.service 0 64 0)).2.result = .ok := by decide
 
 end GV.Props.C11
